@@ -451,7 +451,7 @@ pub fn safety_oracle(cfg: &RunCfg, out: &RunOut) -> (Vec<Finding>, Value) {
         }
     }
     for (s, set) in &skippers {
-        let st: u128 = set.iter().map(|i| cfg.ep.stakes[*i] as u128).sum();
+        let st: u128 = set.iter().filter_map(|i| cfg.ep.stakes.get(*i)).map(|x| *x as u128).sum();
         if st * 5 >= 3 * total {
             skip_cert.insert(*s);
         }
@@ -549,7 +549,7 @@ pub fn voting_rules_oracle(cfg: &RunCfg, out: &RunOut) -> (Vec<Finding>, u64) {
                     let t_final = vs[fp].0;
                     let h = *notars[0];
                     let voters: BTreeSet<usize> = out.votes_delivered.iter().filter(|(t, to, v)| *to == node && *t <= t_final && v.slot == *slot && v.kind == VK::Notar && v.hash == Some(h)).map(|(_, _, v)| v.signer).collect();
-                    let st: u128 = voters.iter().map(|i| cfg.ep.stakes[*i] as u128).sum();
+                    let st: u128 = voters.iter().filter_map(|i| cfg.ep.stakes.get(*i)).map(|s| *s as u128).sum();
                     let cert = out.certs_delivered.iter().any(|(t, to, c)| *to == node && *t <= t_final && c.slot == *slot && c.kind == CK::Notar && c.hash == Some(h));
                     if st * 5 < 3 * total && !cert {
                         f.push(Finding { prop: "C05", sig: "a correct node cast final before a notarization certificate for its block could exist at it".into(), detail: format!("node {node} slot {slot}: notar stake delivered {st}/{total}") });
@@ -561,7 +561,8 @@ pub fn voting_rules_oracle(cfg: &RunCfg, out: &RunOut) -> (Vec<Finding>, u64) {
                 let _ = i;
                 let delivered = |k: VK, h: Option<H32>| -> u128 {
                     let s: BTreeSet<usize> = out.votes_delivered.iter().filter(|(dt, to, dv)| *to == node && *dt <= *t && dv.slot == *slot && dv.kind == k && (h.is_none() || dv.hash == h)).map(|(_, _, dv)| dv.signer).collect();
-                    s.iter().map(|i| cfg.ep.stakes[*i] as u128).sum()
+                    // (hostile votes with out-of-range signers are on the wire too; they carry no stake)
+                    s.iter().filter_map(|i| cfg.ep.stakes.get(*i)).map(|s| *s as u128).sum()
                 };
                 if v.kind == VK::NotarFallback {
                     let nb = delivered(VK::Notar, v.hash);
@@ -580,7 +581,7 @@ pub fn voting_rules_oracle(cfg: &RunCfg, out: &RunOut) -> (Vec<Finding>, u64) {
                             }
                         }
                     }
-                    let stakes: Vec<u128> = per.values().map(|s| s.iter().map(|i| cfg.ep.stakes[*i] as u128).sum()).collect();
+                    let stakes: Vec<u128> = per.values().map(|s| s.iter().filter_map(|i| cfg.ep.stakes.get(*i)).map(|x| *x as u128).sum()).collect();
                     let sum: u128 = stakes.iter().sum();
                     let max: u128 = stakes.iter().copied().max().unwrap_or(0);
                     // the superset delivered so far can only over-approximate skip + sum - max if max is attained by
